@@ -54,6 +54,32 @@ class SplitWiring:
                 d['elt'], d['tokvar'], d['iter'] = inner[1], inner[2][0][0], inner[2][0][1]
         elif v[0] == 'call' and v[1][0] == 'localfunc':
             d['kind'] = 'local generator function'
+        elif v[0] == 'call' and v[1][0] == 'g' and s.cx.model.lookup(v[1]) and s.cx.model.lookup(v[1])[0] == 'func' \
+                and any(isinstance(x, (ast.Yield, ast.YieldFrom)) for x in ast.walk(s.cx.model.lookup(v[1])[1])):
+            # a module-level generator function: lazy; when it is `for tok in <iterable>: yield f(tok)` (one loop, one yield per
+            # element, no test on the element) it is the same object as the generator expression `(f(tok) for tok in <iterable>)`
+            d['lazy'], d['kind'] = True, 'generator function %s' % v[1][2]
+            gfn = s.cx.model.lookup(v[1])[1]
+            b = bind_call(v, gfn)
+            args = {k: x for k, x in b.items() if not k.startswith('*')}
+            try:
+                glv = s.cx.sx.run(v[1][1], gfn, args=args)
+            except Exception:
+                glv = []
+            looped = [x for x in glv if any(e[0] == 'loop-enter' for e in x.effects)]
+            plain = len(looped) == 1 and all(not any(e[0] == 'yield' for e in x.effects) for x in glv if x not in looped)
+            if plain:
+                x = looped[0]
+                ins = [e for e in x.effects if e[0] == 'loop-enter']
+                ys = [e for e in x.effects if e[0] == 'yield']
+                it = ins[0][1]
+                el = ('elem', it)
+                tested = any(any(y == el for y in walk(c[0])) for c in x.conds)
+                if len(ins) == 1 and len(ys) == 1 and not tested and x.outcome in (None, 'fall', 'return') and x.effects.index(ys[0]) > x.effects.index(ins[0]):
+                    from ..facts import subst_term
+                    d['iter'] = it
+                    d['tokvar'] = '__token'
+                    d['elt'] = subst_term(ys[0][1], el, ('lp', '__token'))
         # tokenizer call
         it = d['iter']
         if it is not None and it[0] == 'call' and it[1][0] == 'attr' and it[1][2] == 'tokenize':
